@@ -102,13 +102,20 @@ def jsonable_opts(kw):
 
 
 def result_arrays(out):
-    """everything C06-C09 compare: times, posterior moments, mutation nodes"""
+    """everything C06-C09 compare: times, posterior moments, mutation nodes.
+    Mutation rows are put in a canonical order (site position, node, time): at a site with several
+    mutations tskit orders the rows by the NEW node times (finding K9), so the row order itself can
+    flip between two runs whose times differ by rounding only."""
+    pos = out.sites_position[out.mutations_site] if out.num_mutations else np.zeros(0)
+    mnode = np.array(out.mutations_node, dtype=float)
+    mtime = np.array(out.mutations_time)
+    order = np.lexsort((np.nan_to_num(mtime), mnode, pos)) if out.num_mutations else np.zeros(0, dtype=int)
     return {
         "node_time": np.array(out.nodes_time),
-        "mut_time": np.array(out.mutations_time),
+        "mut_time": mtime[order],
         "node_mn": node_md(out, "mn"), "node_vr": node_md(out, "vr"),
-        "mut_mn": mut_md(out, "mn"), "mut_vr": mut_md(out, "vr"),
-        "mut_node": np.array(out.mutations_node, dtype=float),
+        "mut_mn": mut_md(out, "mn")[order], "mut_vr": mut_md(out, "vr")[order],
+        "mut_node": mnode[order],
     }
 
 
